@@ -25,5 +25,9 @@ def units(tier):
         H("C20", M, "check_wakeup_close_idempotent", t, ["loky.process_executor:_ThreadWakeup.close"], "1..3 closes"),
         H("C20", "lokyverif.harness.c18_spawn", "check_launch", t, ["loky.backend.popen_loky_posix:Popen._launch"], "descriptor table after launch = {sentinel}"),
         H("C20", "lokyverif.harness.c18_spawn", "check_fork_exec", t, ["loky.backend.fork_exec:fork_exec"], "error pipe closed on both outcomes"),
+        H("C20", "lokyverif.harness.c06_killtree", "check_psutil_kill", t, ["loky.backend.utils:_kill_process_tree_with_psutil"],
+          "the killed worker is reaped by process.join() (never by psutil), trees of <=5 processes"),
+        H("C20", "lokyverif.harness.c06_killtree", "check_posix_recursive_kill", t, ["loky.backend.utils:_kill_process_tree_without_psutil"],
+          "same through the pgrep fallback"),
         H("C20", "lokyverif.harness.c12_tracker_ctl", "check_ensure_running", t, ["loky.backend.resource_tracker:ResourceTracker.ensure_running"], "<=3 restarts, no descriptor left behind"),
     ]
